@@ -2,13 +2,13 @@
 from gateprops import run_gate_check, oracle_c16
 
 PROP = "C16"
-LEAN_FILES = ["QibProofs/Properties/C16.lean"]
+LEAN_FILES = ["QibProofs/Properties/C16.lean", "QibProofs/Properties/C16Tree.lean"]
 GEN = ("gates", "pauli")
 DRIVER = "drv_gate"
 LEVEL_TEXT = ("Lean 4 theorems over (a) the leaf closed forms regenerated from gates.py by the translator and (b) combinators for "
               "controlled / multiplexed / time-evolution / block-encoding / preparation gates over arbitrary index types, lifted to every "
               "gate tree by structural induction; composite assembly (kron/diag/block_diag/np.block, inverse(), is_hermitian delegation) "
-              "is tied to the code by exact differential execution of the Lean model on the same gate trees."
+              "is tied to the code by exact differential execution of the Lean model on the same gate trees; the same statements are ALSO proved directly about the executable gate-tree model that the driver runs (Tree.mat / inverse / herm over exact Gaussian rationals, structural induction over Tree.WF, files C..Tree.lean)."
               " Pauli strings / weighted strings / Pauli operators: is_hermitian is exact for strings and weighted strings (iff theorems for every length, phase and weight) and sound for operators, over the executable Pauli model whose tables are regenerated from the source, tied by differential execution (exhaustive n <= 2/3 + random).")
 ASSUMPTIONS = ["scipy.linalg.expm is modelled by NormedSpace.exp, sqrtm(1-H^2) by any Hermitian square root commuting with H, "
                "np.linalg.qr by any real orthogonal completion with first column +-x/|x| (each assumption is checked numerically on every sampled call)",
